@@ -5,6 +5,8 @@ import (
 	"errors"
 	"fmt"
 	"math"
+	"sort"
+	"sync"
 	"time"
 
 	"go.etcd.io/raft/v3"
@@ -47,6 +49,7 @@ func (l *alist) clone() alist {
 }
 
 type batch struct {
+	raw      []*pb.Entry // the slice the log handed out (not copied: the application writes what it was given)
 	ents     []aent
 	snapIdx  uint64
 	snapTerm uint64
@@ -326,7 +329,7 @@ func (s *sut) apply(o lop) (res string) {
 		snap := s.l.NextUnstableSnapshot()
 		_, _, uents, _, _ := s.l.Unstable()
 		s.l.AcceptUnstable()
-		b := batch{epoch: m.epoch}
+		b := batch{epoch: m.epoch, raw: ents}
 		for _, e := range ents {
 			b.ents = append(b.ents, aent{index: e.GetIndex(), term: e.GetTerm(), size: len(e.GetData())})
 		}
@@ -370,9 +373,13 @@ func (s *sut) apply(o lop) (res string) {
 			}
 		}
 		if len(b.ents) > 0 {
-			var pents []*pb.Entry
-			for _, e := range b.ents {
-				pents = append(pents, e.pb())
+			// write exactly the slice that was handed out at Ready time; if the log has
+			// scribbled over it since (aliasing), storage ends up different from the model
+			pents := b.raw
+			for k, e := range pents {
+				if k < len(b.ents) && (e.GetIndex() != b.ents[k].index || e.GetTerm() != b.ents[k].term || len(e.GetData()) != b.ents[k].size) {
+					return fmt.Sprintf("the batch handed out by Ready changed before it was written: position %d now holds (%d,t%d), was %+v", k, e.GetIndex(), e.GetTerm(), b.ents[k])
+				}
 			}
 			if err := s.st.Append(pents); err != nil {
 				return fmt.Sprintf("storage.Append: %v", err)
@@ -644,7 +651,7 @@ func describe(ents []*pb.Entry) string {
 func (s *sut) key() [16]byte {
 	m := s.m
 	h := sha256.New()
-	fmt.Fprintf(h, "%v|%d|%d|%d|%d|%v|%d|%d|%v|%v|%d|%d|%d|%d|%d|%d", m.log, m.committed, m.applied, m.acked, m.pendSnap, m.sto, m.snapIdx, m.snapTerm, m.pipe, m.acks, m.inProg, m.term, m.epoch, m.ledTerm, m.folTerm, m.folD)
+	fmt.Fprintf(h, "%v|%d|%d|%d|%d|%v|%d|%d|%v|%v|%d|%d|%d|%d|%d|%d", m.log, m.committed, m.applied, m.acked, m.pendSnap, m.sto, m.snapIdx, m.snapTerm, batchKey(m.pipe), batchKey(m.acks), m.inProg, m.term, m.epoch, m.ledTerm, m.folTerm, m.folD)
 	h.Write(s.st.VerifFingerprint(nil))
 	fmt.Fprint(h, s.l.String())
 	uoff, uprog, uents, usnap, uinp := s.l.Unstable()
@@ -652,6 +659,15 @@ func (s *sut) key() [16]byte {
 	var k [16]byte
 	copy(k[:], h.Sum(nil))
 	return k
+}
+
+// batchKey renders batches without the raw slices (whose addresses are not state).
+func batchKey(bs []batch) string {
+	s := ""
+	for _, b := range bs {
+		s += fmt.Sprintf("{%v %d %d %d %d %d}", b.ents, b.snapIdx, b.snapTerm, b.ackIdx, b.ackTerm, b.epoch)
+	}
+	return s
 }
 
 func replayOps(async bool, ops []lop) (*sut, string) {
@@ -675,6 +691,7 @@ func runLogStore(tier string, deadline time.Time) *Report {
 	type node struct {
 		ops []lop
 	}
+	var mu sync.Mutex
 	for _, async := range []bool{false, true} {
 		root, _ := replayOps(async, nil)
 		seen := map[[16]byte]bool{root.key(): true}
@@ -683,45 +700,80 @@ func runLogStore(tier string, deadline time.Time) *Report {
 		depth := 0
 		for ; depth < maxLen && len(frontier) > 0; depth++ {
 			var next []node
-			for fi, nd := range frontier {
-				if fi%256 == 0 && !deadline.IsZero() && time.Now().After(deadline) {
-					r.Exhaustive = false
-					r.Caps = append(r.Caps, fmt.Sprintf("async=%v: deadline reached at length %d (%d of %d sequences expanded); all sequences up to length %d are covered", async, depth+1, fi, len(frontier), depth))
-					frontier = nil
-					next = nil
-					break
-				}
-				s, _ := replayOps(async, nd.ops)
-				for _, o := range s.enabled() {
-					s2, msg := replayOps(async, nd.ops)
-					if msg == "" {
-						msg = s2.apply(o)
-					}
-					if msg == "" {
-						msg = s2.compare()
-					}
-					r.Transitions++
-					r.Evaluations++
-					seq := append(append([]lop(nil), nd.ops...), o)
-					if msg != "" {
-						if len(r.Violations) < 5 {
-							r.Violations = append(r.Violations, fmt.Sprintf("async=%v %v: %s", async, seq, msg))
-						}
-						continue
-					}
-					k := s2.key()
-					if seen[k] {
-						continue
-					}
-					seen[k] = true
-					r.States++
-					r.Nontrivial++
-					next = append(next, node{ops: seq})
-					if len(r.Samples) < 3 && len(seq) >= 6 && (o.kind == "ack-unguarded" || o.kind == "compact" || o.kind == "restore") {
-						r.Samples = append(r.Samples, fmt.Sprint(seq))
-					}
-				}
+			cut := false
+			// expand the frontier with a pool of goroutines (every successor is rebuilt by replay, so they are independent)
+			work := make(chan int, len(frontier))
+			for fi := range frontier {
+				work <- fi
 			}
+			close(work)
+			var wg sync.WaitGroup
+			for g := 0; g < 12; g++ {
+				wg.Add(1)
+				go func() {
+					defer wg.Done()
+					for fi := range work {
+						if fi%64 == 0 && !deadline.IsZero() && time.Now().After(deadline) {
+							mu.Lock()
+							cut = true
+							mu.Unlock()
+						}
+						mu.Lock()
+						c := cut || len(r.Violations) >= 5
+						mu.Unlock()
+						if c {
+							continue
+						}
+						nd := frontier[fi]
+						s, _ := replayOps(async, nd.ops)
+						for _, o := range s.enabled() {
+							s2, msg := replayOps(async, nd.ops)
+							if msg == "" {
+								msg = s2.apply(o)
+							}
+							if msg == "" {
+								msg = s2.compare()
+							}
+							seq := append(append([]lop(nil), nd.ops...), o)
+							var k [16]byte
+							if msg == "" {
+								k = s2.key()
+							}
+							mu.Lock()
+							r.Transitions++
+							r.Evaluations++
+							if msg != "" {
+								if len(r.Violations) < 5 {
+									r.Violations = append(r.Violations, fmt.Sprintf("async=%v %v: %s", async, seq, msg))
+								}
+								mu.Unlock()
+								continue
+							}
+							if seen[k] {
+								mu.Unlock()
+								continue
+							}
+							seen[k] = true
+							r.States++
+							r.Nontrivial++
+							next = append(next, node{ops: seq})
+							if len(r.Samples) < 3 && len(seq) >= 6 && (o.kind == "ack-unguarded" || o.kind == "compact" || o.kind == "restore") {
+								r.Samples = append(r.Samples, fmt.Sprint(seq))
+							}
+							mu.Unlock()
+						}
+					}
+				}()
+			}
+			wg.Wait()
+			if cut {
+				r.Exhaustive = false
+				r.Caps = append(r.Caps, fmt.Sprintf("async=%v: deadline reached while expanding length %d; all sequences up to length %d are covered", async, depth+1, depth))
+				frontier = nil
+				break
+			}
+			// deterministic order of the next frontier regardless of goroutine timing
+			sort.Slice(next, func(a, b int) bool { return fmt.Sprint(next[a].ops) < fmt.Sprint(next[b].ops) })
 			frontier = next
 			if len(r.Violations) >= 5 {
 				break
